@@ -283,6 +283,16 @@ func (fr *Frame) afterCall(st *State, name string, res Val) {
 		if rs == nil && res.T != "" {
 			rs = []Val{res}
 		}
+		cn := "$count:" + pat
+		u.regHeap(cn, "Int")
+		u.heapSet(st, cn, app("+", u.heapCur(st, cn), "1"))
+		for k, r := range rs {
+			if r.S == "Bool" {
+				tn := fmt.Sprintf("$cnttrue:%s:%d", pat, k)
+				u.regHeap(tn, "Int")
+				u.heapSet(st, tn, app("+", u.heapCur(st, tn), ite(r.T, "1", "0")))
+			}
+		}
 		for k, r := range rs {
 			if r.T == "" || r.S == "" {
 				continue
@@ -307,7 +317,7 @@ func (fr *Frame) ghostPatterns() []string {
 	walk = func(e Expr) {
 		switch x := e.(type) {
 		case *ECall:
-			if (x.Fn == "called" || x.Fn == "ret" || x.Fn == "ret1" || x.Fn == "ret2" || x.Fn == "first") && len(x.Args) >= 1 {
+			if (x.Fn == "called" || x.Fn == "ret" || x.Fn == "ret1" || x.Fn == "ret2" || x.Fn == "first" || x.Fn == "count" || x.Fn == "counttrue0" || x.Fn == "counttrue1") && len(x.Args) >= 1 {
 				if s, ok := x.Args[0].(*EStr); ok && !seen[s.V] {
 					seen[s.V] = true
 					out = append(out, s.V)
@@ -366,6 +376,10 @@ func (fr *Frame) applyContract(st *State, fc *FuncContract, callee *ssa.Function
 	for i, c := range fc.Requires {
 		t := env.trBool(c.E)
 		u.oblige(st, "pre", fmt.Sprintf("%s/pre:%s:%s", fr.topFrame().fnLabel(), shortName(name), clauseName(c, i)), t, pos, c, "precondition of "+name+": "+c.Src)
+	}
+	for _, c := range fc.Assumes {
+		u.assumeG(st, env.trBool(c.E))
+		u.note("assumed input invariant of %s (not established by callers): %s", name, c.Src)
 	}
 	// havoc assigns
 	if fc.Pure {
@@ -705,6 +719,21 @@ func (fr *Frame) doAppend(st *State, c *ssa.CallCommon, args []Val) Val {
 	// element contents: row of result base
 	oldRowS := sel(hc, app("sl_base", s.T))
 	newRow := u.enc.freshConst("row", "(Array Int "+es+")")
+	if n := staticAppendLen(c); n > 0 && !isStr {
+		// append(s, e0, ..., e(n-1)): quantifier-free row update.
+		tRow := sel(hc, app("sl_base", t.T))
+		take := u.arrTake(es)
+		inPlace := oldRowS
+		fresh := app(take, oldRowS, app("sl_off", s.T), app("sl_len", s.T))
+		for k := 0; k < n; k++ {
+			ek := sel(tRow, app("+", app("sl_off", t.T), fmt.Sprint(k)))
+			inPlace = sto(inPlace, fmt.Sprintf("(+ (sl_off %s) (sl_len %s) %d)", s.T, s.T, k), ek)
+			fresh = sto(fresh, fmt.Sprintf("(+ (sl_len %s) %d)", s.T, k), ek)
+		}
+		u.assume(eq(newRow, ite(fits, inPlace, fresh)))
+		u.heapStoreAt(st, h, resBase, newRow)
+		return Val{T: res, S: "Slice"}
+	}
 	j := fmt.Sprintf("j!%d", u.enc.fresh)
 	u.enc.fresh++
 	var srcElem string
@@ -723,4 +752,35 @@ func (fr *Frame) doAppend(st *State, c *ssa.CallCommon, args []Val) Val {
 		j, inS, newRow, j, oldAt, inT, newRow, j, srcElem, fits, inS, inT, newRow, j, oldRowS, j, newRow, j))
 	u.heapStoreAt(st, h, resBase, newRow)
 	return Val{T: res, S: "Slice"}
+}
+
+// staticAppendLen: number of appended elements when the second operand is a freshly built [n]T array slice (variadic call).
+func staticAppendLen(c *ssa.CallCommon) int {
+	if len(c.Args) != 2 {
+		return 0
+	}
+	sl, ok := c.Args[1].(*ssa.Slice)
+	if !ok || sl.Low != nil || sl.High != nil || sl.Max != nil {
+		return 0
+	}
+	al, ok := sl.X.(*ssa.Alloc)
+	if !ok {
+		return 0
+	}
+	arr, ok := al.Type().Underlying().(*types.Pointer).Elem().Underlying().(*types.Array)
+	if !ok || arr.Len() > 4 {
+		return 0
+	}
+	return int(arr.Len())
+}
+
+// arrTake: arr_take(a, o, n)[j] == a[o+j] for 0 <= j < n (a copy of n elements starting at o).
+func (u *Unit) arrTake(es string) string {
+	name := q("arr_take$" + es)
+	if !u.enc.declared[name] {
+		asrt := "(Array Int " + es + ")"
+		u.enc.raw(name, fmt.Sprintf("(declare-fun %s (%s Int Int) %s)", name, asrt, asrt))
+		u.enc.axioms = append(u.enc.axioms, fmt.Sprintf("(forall ((a!t %s) (o!t Int) (n!t Int) (j!t Int)) (! (=> (and (<= 0 j!t) (< j!t n!t)) (= (select (%s a!t o!t n!t) j!t) (select a!t (+ o!t j!t)))) :pattern ((select (%s a!t o!t n!t) j!t))))", asrt, name, name))
+	}
+	return name
 }
